@@ -112,6 +112,13 @@ Theorem close_closes_handle : forall (ch : Z -> Z -> Z -> Z) disk h d' h' r,
 Proof. exact close_closes. Qed.
 Print Assumptions close_closes_handle.
 
+(* The statement at full strength, [io_refines_full] (IoTheorems.v: io_refines without the
+   hypotheses on "\r" and on the place of "*n"), is false of the code as it is; the two
+   theorems after this one give the witnesses (findings C19-3, C19-11). *)
+Theorem io_refines_full_refuted : ~ io_refines_full.
+Proof. exact io_refines_full_refuted_lemma. Qed.
+Print Assumptions io_refines_full_refuted.
+
 (* C19-3 (listed): io_refines fails without "no \r in the file": read("*l") on "abc\r\nx". *)
 Theorem io_refines_cr_refuted :
   exists m init ops,
